@@ -36,6 +36,7 @@ EncOK(r) ==
     \* decoding the produced frames gives the packet back
     /\ r.decHeaderOK
     /\ (r.decodeChecked => r.decoded = r.orig)
+    /\ (r.decodeCheckedG => r.decodedG = r.orig)      \* decoded into `any` arguments (generic containers)
     \* encoding the same values again gives the same packet (same header and frame count, placeholders
     \* again a valid numbering - maps may be walked in another order), and the values were not changed
     /\ r.secondSame /\ PlaceholdersOK(r.encoded2, r.orig, r.atts2) /\ r.inputSame
